@@ -83,6 +83,13 @@ CHECKS['C09'] = dict(
     design_ref='DESIGN.md section 3 C09',
     note='dict backend; not granting a proxy identity and ignoring the requested authorisation identity (acting as the authenticating user) are admissible; successful credentials are part of the state key so that cache-like hidden state is not merged away; maildir Login is not in this check',
     technique='explicit-state model checking of the implementation against a reference auth model')
+CHECKS['C06'] = dict(
+    engine='E8 bounded-exhaustive input enumeration (vf/enum_inputs.py, vf/fuzzdrv.py, vf/checks/c06.py)',
+    category='exploration',
+    text='Complete enumeration, executed on the real server over the virtual loop, of: all raw lines over a 16-byte alphabet (letters, space, quote, backslash, parentheses, braces, +, digit, *, &, -, NUL, 0x80, CR) up to length 3 (thorough 4), bare and behind a tag, in the not-authenticated, authenticated and selected states, on IMAP and ManageSieve; every command word x every raw argument up to length 2; 43 command templates x every value of every slot domain (mailbox names with invalid/unterminated modified UTF-7, 8-bit, literals of all forms incl. oversized and short, sequence sets incl. >= 2^32, 57 fetch items incl. malformed sections and partials, flag lists, store modes, date-times, 20 charsets whose probe decode raises non-LookupError, 76 search programs incl. 600-deep OR/NOT chains and 1100-deep parentheses, ID lists, credentials, status attributes) and all pairs of hostile slots, also issued in the wrong states; every valid line, fetch item and search key right after another session renamed / deleted / re-created / emptied the selected mailbox; every single-point mutation (delete, duplicate, replace by 12 bytes, insert) at every position of every valid line; 14 ManageSieve commands x 28 hostile argument shapes; a message corpus (all strings of <= 2 tokens, thorough 3, from a 14-token alphabet of header/MIME/CR/LF/NUL/8-bit fragments plus 37 header and nesting bombs) stored by APPEND and hit with every FETCH item form and every SEARCH key; the bad-command limit. Oracle per input: within a step budget and a CPU watchdog the server wrote a tagged completion with the line\'s tag (or * BAD), or a continuation request (answered or cancelled by the driver, recursively), or BYE before closing; no [SERVERBUG]; no close without BYE; output ends on a line boundary; a second connection still gets its NOOP answered.',
+    design_ref='DESIGN.md section 3 C06',
+    note='dict backend with demo data; lines shorter than the 64 KiB stream limit; a line whose announced literal is longer than the bytes supplied leaves the server legitimately waiting; two recorded known findings (selection followed by name to a different mailbox; 500-deep MIME recursion)',
+    technique='bounded-exhaustive input enumeration executed on the implementation under a virtual loop with step budget and CPU watchdog')
 NA = {}
 
 def main():
